@@ -5,7 +5,8 @@ cd /verif
 IDS="$@"
 [ -z "$IDS" ] && IDS=$(ls seeded)
 for id in $IDS; do
-  ob=$(python3 -c "import json;print(json.load(open('seeded/$id/meta.json'))['detected_by']['obligation'])")
+  ob=$(python3 -c "import json;d=json.load(open('seeded/$id/meta.json'))['detected_by'];print(d['obligation'] if d else '')")
+  [ -z "$ob" ] && { echo "$id recorded as MISSED (no detecting obligation)"; continue; }
   prop=$(python3 -c "import json,re;print(json.load(open('seeded/$id/meta.json'))['property'][:3])")
   out=$(./tools_seedtest.sh /verif/seeded/$id/patch.diff $prop quick "$ob\$" 2>&1)
   if echo "$out" | grep -q "^VIOLATION property=$prop"; then echo "$id DETECTED by $ob"; else echo "$id MISSED ($ob): $(echo "$out" | tail -2 | tr '\n' ' ' | cut -c1-160)"; fi
